@@ -6,6 +6,7 @@
 //           ||X'BX - I|| - used to compare the behaviour of a repaired header with the original (always exit 0)
 //   mode 6: any other failed obligation (shape / index / callee precondition): a family of inputs INSIDE the property's quantifier (k = 1..4, n = 20, 50, with / without B,
 //           diagonal preconditioner, constraints, maxit 0 / 1 / 30, a second compute() on the same object) with Eigen's assertions enabled: an assertion abort = reproduced
+//   mode 7: the status clause against the pencil itself (random well-separated pencils, loose tolerances): Success ==> recomputed residual columns below tol * n
 //   mode 4: (outside the property's quantifier, for the report) rank-deficient initial block: the initial LDLT fails and `BX = BX * sparse_eVecX` multiplies a 0 x 0 matrix
 // exit code 1 + a line starting with REPRODUCED when the real code exhibits the violated obligation, 0 otherwise.
 #include <cstdio>
@@ -199,6 +200,47 @@ static int mode6()
     return 0;
 }
 
+// mode 7: the status clause against the pencil itself, inside the quantifier: random well-separated pencils, loose tolerances (columns converge at different
+// iterations and keep rotating afterwards): info() == Success  ==>  every column of A X - B X diag(lambda), recomputed from the accessors, is below tol * n
+static int mode7()
+{
+    int hit = 0, runs = 0, succ = 0;
+    for (int trial = 0; trial < 1500 && !hit; trial++)
+    {
+        const int n = 80 + 20 * (trial % 3), k = 2 + trial % 3;
+        const double tol = (trial % 2) ? 1e-3 : 3e-4;
+        Mat a = Mat::Zero(n, n), b = Mat::Zero(n, n), t = Mat::Zero(n, n);
+        for (int i = 0; i < n; i++)
+        {
+            a(i, i) = 1.0 + 0.9 * i + 0.2 * rnd();
+            b(i, i) = 2.0 + 0.3 * rnd();
+            t(i, i) = 1.0 / a(i, i);
+            if (i + 1 < n) { const double o = 0.3 * rnd(); a(i, i + 1) = o; a(i + 1, i) = o; b(i, i + 1) = 0.1; b(i + 1, i) = 0.1; }
+            if (i + 7 < n) { const double o = 0.2 * rnd(); a(i, i + 7) = o; a(i + 7, i) = o; }
+        }
+        SpMat A = a.sparseView(), B = b.sparseView(), T = t.sparseView();
+        Solver solver(A, make_X(n, k));
+        if (trial % 4 != 3) solver.setB(B);
+        if (trial % 5 == 0) solver.setPreconditioner(T);
+        try { solver.compute(60, tol); } catch (const std::exception&) { continue; }
+        runs++;
+        if (solver.info() != Eigen::Success) continue;
+        succ++;
+        Mat V = solver.eigenvectors(); Mat lam = solver.eigenvalues();
+        if (V.rows() != n || V.cols() != k || lam.size() != k) { std::printf("REPRODUCED: trial %d: Success with eigenvectors() %dx%d, %d eigenvalues\n", trial, int(V.rows()), int(V.cols()), int(lam.size())); hit = 1; break; }
+        Mat Bd = (trial % 4 != 3) ? b : Mat(Mat::Identity(n, n));
+        Mat R = a * V - Bd * V * lam.col(0).asDiagonal();
+        const double worst = max_col_norm(R);
+        if (!(worst < tol * n))
+        {
+            std::printf("REPRODUCED: trial %d (n=%d k=%d tol=%.0e): info() == Success but a column of A X - B X diag(lambda) has norm %.3e (limit %.3e)\n", trial, n, k, tol, worst, tol * n);
+            hit = 1;
+        }
+    }
+    std::printf("%d runs, %d reported Success\n", runs, succ);
+    return hit;
+}
+
 static void sanity_case(const char* what, const SpMat& A, const SpMat* B, const SpMat* T, int k, int maxit, double tol)
 {
     const int n = int(A.rows());
@@ -273,6 +315,7 @@ int main(int argc, char** argv)
     else if (mode == 4) hit = mode4();
     else if (mode == 5) return mode5();
     else if (mode == 6) hit = mode6();
+    else if (mode == 7) hit = mode7();
     if (!hit)
         std::printf("not reproduced\n");
     return hit ? 1 : 0;
